@@ -233,7 +233,8 @@ fn cexpr_ty(goenv: &GlobalGoEnv, e: &anf::CExpr) -> goty::GoType {
         | anf::CExpr::EToDyn { ty, .. }
         | anf::CExpr::EDynCall { ty, .. }
         | anf::CExpr::EGo { ty, .. }
-        | anf::CExpr::EProj { ty, .. } => ty.clone(),
+        | anf::CExpr::EProj { ty, .. }
+        | anf::CExpr::EClosureFn { ty, .. } => ty.clone(),
         // For EConstrGet, compute field type from the scrutinee's data constructor
         anf::CExpr::EConstrGet {
             expr,
@@ -661,6 +662,10 @@ fn collect_runtime_types(
                     self.collect_imm(tuple);
                     self.collect_type(ty);
                 }
+                anf::CExpr::EClosureFn { closure, ty } => {
+                    self.collect_imm(closure);
+                    self.collect_type(ty);
+                }
             }
         }
 
@@ -897,6 +902,10 @@ fn collect_dyn_requirements(file: &anf::File) -> DynRequirements {
             }
             anf::CExpr::EProj { tuple, ty, .. } => {
                 collect_imm(req, tuple);
+                collect_ty(req, ty);
+            }
+            anf::CExpr::EClosureFn { closure, ty } => {
+                collect_imm(req, closure);
                 collect_ty(req, ty);
             }
         }
@@ -1582,6 +1591,12 @@ fn compile_cexpr(goenv: &GlobalGoEnv, e: &anf::CExpr) -> goast::Expr {
                 ty: tast_ty_to_go_type(ty),
             }
         }
+        // the method value `env.call`: a Go func that applies the closure
+        anf::CExpr::EClosureFn { closure, ty } => goast::Expr::FieldAccess {
+            obj: Box::new(compile_imm(goenv, closure)),
+            field: CLOSURE_CALL_METHOD.to_string(),
+            ty: tast_ty_to_go_type(ty),
+        },
     }
 }
 
@@ -1908,7 +1923,8 @@ fn compile_cexpr_effect(goenv: &GlobalGoEnv, expr: &anf::CExpr) -> Vec<goast::St
         | anf::CExpr::EUnary { .. }
         | anf::CExpr::EBinary { .. }
         | anf::CExpr::EToDyn { .. }
-        | anf::CExpr::EProj { .. } => Vec::new(),
+        | anf::CExpr::EProj { .. }
+        | anf::CExpr::EClosureFn { .. } => Vec::new(),
         anf::CExpr::ECall { .. } | anf::CExpr::EDynCall { .. } => {
             // builtins are expanded in place and need not be Go calls: `vec_get(v, i)` is `v[i]`,
             // which can fail but is no statement; `vec_new()` is `nil`, which does nothing
@@ -2160,6 +2176,7 @@ fn compile_aexpr_assign(
             | anf::CExpr::EBinary { .. }
             | anf::CExpr::EToDyn { .. }
             | anf::CExpr::EProj { .. }
+            | anf::CExpr::EClosureFn { .. }
             | anf::CExpr::ETuple { .. }
             | anf::CExpr::EArray { .. }) => vec![goast::Stmt::Assignment {
                 name: go_ident(target),
@@ -2521,7 +2538,7 @@ pub fn go_file(
     let file = anf::anf_renamer::rename(file);
     let dyn_req = collect_dyn_requirements(&file);
 
-    let mut toplevels = gen_type_definition(&goenv);
+    let mut toplevels = gen_type_definition(&goenv, &closures_used_as_fn_values(&file));
     toplevels.extend(gen_dyn_type_definitions(&goenv, &dyn_req));
     toplevels.extend(gen_dyn_helper_fns(&goenv, &dyn_req));
     for item in file.toplevels {
@@ -2631,7 +2648,101 @@ fn mentions_type_param(ty: &tast::Ty) -> bool {
     }
 }
 
-fn gen_type_definition(goenv: &GlobalGoEnv) -> Vec<goast::Item> {
+/// The method of a closure's environment struct whose method value is the closure as a Go func.
+const CLOSURE_CALL_METHOD: &str = "call";
+
+/// The environment structs of the closures that are used as function values somewhere.
+fn closures_used_as_fn_values(file: &anf::File) -> IndexSet<String> {
+    fn in_cexpr(expr: &anf::CExpr, found: &mut IndexSet<String>) {
+        match expr {
+            anf::CExpr::EClosureFn { closure, .. } => {
+                if let tast::Ty::TStruct { name } = imm_ty(closure) {
+                    found.insert(name);
+                }
+            }
+            anf::CExpr::EMatch { arms, default, .. } => {
+                for arm in arms {
+                    in_aexpr(&arm.body, found);
+                }
+                if let Some(default) = default {
+                    in_aexpr(default, found);
+                }
+            }
+            anf::CExpr::EIf { then, else_, .. } => {
+                in_aexpr(then, found);
+                in_aexpr(else_, found);
+            }
+            anf::CExpr::EWhile { cond, body, .. } => {
+                in_aexpr(cond, found);
+                in_aexpr(body, found);
+            }
+            _ => {}
+        }
+    }
+    fn in_aexpr(expr: &anf::AExpr, found: &mut IndexSet<String>) {
+        match expr {
+            anf::AExpr::ACExpr { expr } => in_cexpr(expr, found),
+            anf::AExpr::ALet { value, body, .. } => {
+                in_cexpr(value, found);
+                in_aexpr(body, found);
+            }
+        }
+    }
+    let mut found = IndexSet::new();
+    for f in &file.toplevels {
+        in_aexpr(&f.body, &mut found);
+    }
+    found
+}
+
+/// `func (env S) call(p0 T0, ..) R { return apply(env, p0, ..) }`
+fn closure_call_method(goenv: &GlobalGoEnv, struct_name: &str) -> Option<goast::Method> {
+    let closure_ty = tast::Ty::TStruct {
+        name: struct_name.to_string(),
+    };
+    let apply = find_closure_apply_fn(goenv, &closure_ty)?;
+    let tast::Ty::TFunc { params, ret_ty } = &apply.ty else {
+        return None;
+    };
+    let go_params: Vec<(String, goty::GoType)> = params
+        .iter()
+        .skip(1)
+        .enumerate()
+        .map(|(i, ty)| (format!("p{}", i), tast_ty_to_go_type(ty)))
+        .collect();
+    let mut args = vec![goast::Expr::Var {
+        name: "env".to_string(),
+        ty: tast_ty_to_go_type(&closure_ty),
+    }];
+    args.extend(go_params.iter().map(|(name, ty)| goast::Expr::Var {
+        name: name.clone(),
+        ty: ty.clone(),
+    }));
+    let go_ret = tast_ty_to_go_type(ret_ty);
+    Some(goast::Method {
+        receiver: goast::Receiver {
+            name: "env".to_string(),
+            ty: tast_ty_to_go_type(&closure_ty),
+        },
+        name: CLOSURE_CALL_METHOD.to_string(),
+        params: go_params,
+        ret_ty: Some(go_ret.clone()),
+        body: goast::Block {
+            stmts: vec![goast::Stmt::Return {
+                expr: Some(goast::Expr::Call {
+                    func: Box::new(goast::Expr::Var {
+                        name: go_ident(&apply.name),
+                        ty: tast_ty_to_go_type(&apply.ty),
+                    }),
+                    args,
+                    ty: go_ret,
+                }),
+            }],
+        },
+    })
+}
+
+fn gen_type_definition(goenv: &GlobalGoEnv, fn_value_closures: &IndexSet<String>) -> Vec<goast::Item> {
     let mut defs = Vec::new();
     for (name, def) in goenv.structs() {
         // generic definitions are templates: only their instances become Go types
@@ -2649,10 +2760,15 @@ fn gen_type_definition(goenv: &GlobalGoEnv) -> Vec<goast::Item> {
                 ty: tast_ty_to_go_type(fty),
             })
             .collect();
+        let methods = if fn_value_closures.contains(&name.0) {
+            closure_call_method(goenv, &name.0).into_iter().collect()
+        } else {
+            vec![]
+        };
         defs.push(goast::Item::Struct(goast::Struct {
             name: go_ident(&name.0),
             fields,
-            methods: vec![],
+            methods,
         }));
     }
 
@@ -2695,6 +2811,7 @@ fn gen_type_definition(goenv: &GlobalGoEnv) -> Vec<goast::Item> {
                 },
                 name: type_identifier_method.clone(),
                 params: vec![],
+                ret_ty: None,
                 body: goast::Block { stmts: vec![] },
             }];
 
